@@ -197,7 +197,31 @@ func (w *world) expect(q *query, ver string) expectation {
 		return exp1(w.height()-1, fmt.Sprintf("ok %s %x", hx(w.g.Head().Block.Hash), w.height()-1))
 	case "blockTxHashes", "blockTxs", "blockReceipts", "txCount", "stateUpdate", "txByIdx":
 		if v8pending {
-			return expectation{skip: true}
+			// v0.8 `pending` on a node without pending data: the empty block on top of the head
+			// (what rpc/v8 documents it serves): parent = head, no transactions, old root = head
+			// root, and the protocol's block-hash bookkeeping (hash of block n-10 in contract 0x1)
+			// as its only state change
+			if !ok {
+				if q.method == "txByIdx" && q.index < 0 {
+					return expectation{lines: []string{errLine(codeBlockNotFound), errLine(codeInvalidTxIndex)}, resolved: -1}
+				}
+				return exp1(-1, errLine(codeBlockNotFound))
+			}
+			head := w.g.Bundles[n].Block
+			switch q.method {
+			case "txCount":
+				return exp1(res, "ok 0")
+			case "txByIdx":
+				return exp1(res, errLine(codeInvalidTxIndex))
+			case "stateUpdate":
+				d := "-"
+				if next := n + 1; next >= 10 {
+					d = fmt.Sprintf("s=1,%x,%s", next-10, hx(w.g.Bundles[next-10].Block.Hash))
+				}
+				return exp1(res, fmt.Sprintf("ok pending-update %s %s", hx(head.GlobalStateRoot), d))
+			default:
+				return exp1(res, "ok pending "+hx(head.Hash))
+			}
 		}
 		if !ok {
 			if q.method == "txByIdx" && q.index < 0 {
